@@ -155,8 +155,8 @@ class History:
             except Exception as e:  # noqa
                 import traceback
                 where = traceback.extract_tb(e.__traceback__)[-1]
-                if isinstance(e, (AssertionError,)) and op in 'PT':
-                    # refusals documented by the operation itself (e.g. to_expr of FALSE / Boolean support)
+                if isinstance(e, (AssertionError,)) and op in 'P':
+                    # refusals documented by the operation itself (to_expr of FALSE / Boolean support); synthesis (T) must not raise
                     self.log.append(f'{op}: refused ({type(e).__name__} at {where.name})')
                 else:
                     problems.append(f'operation {op} at step {step} raised {type(e).__name__} at {where.name}:{where.lineno}: {str(e)[:80]}')
@@ -259,22 +259,43 @@ class History:
             back = other.copy(w, aut)
             self.tracked.append((f'copy of ({label})', back, term))
         elif op == 'T':
+            # synthesis in the same context, on ONE game automaton kept across the history: each application first
+            # re-assigns the ownership of its two variables in place (the primed variable lists of the previous
+            # solve are then stale) and must give the region a fresh automaton gives for the same game
             import omega.symbolic.temporal as trl
-            g = trl.Automaton()
-            g.bdd = aut.bdd
-            g.vars = aut.vars
-            g.varlist = dict(env=['e'], sys=['s'])
-            g.init['env'] = 'TRUE'
-            g.init['sys'] = 'TRUE'
-            g.action['env'] = 'TRUE'
-            g.action['sys'] = rnd.choice(["s' <=> e", "s' \\/ ~ e", "TRUE"])
-            g.win['[]<>'] = g.bdds_from(rnd.choice(['s', 's <=> e']))
-            g.win['<>[]'] = g.bdds_from('FALSE')
-            g.moore, g.plus_one, g.qinit = False, True, '\\A \\A'
-            g.prime_varlists()
+
+            def game(owner_env, spec):
+                g = trl.Automaton()
+                g.bdd = aut.bdd
+                g.vars = aut.vars
+                g.varlist = dict(env=[owner_env], sys=['s' if owner_env == 'e' else 'e'])
+                g.init['env'] = 'TRUE'
+                g.init['sys'] = 'TRUE'
+                g.action['env'], g.action['sys'], goal = spec
+                g.win['[]<>'] = g.bdds_from(goal)
+                g.win['<>[]'] = g.bdds_from('FALSE')
+                g.moore, g.plus_one, g.qinit = False, True, '\\A \\A'
+                return g
+            spec = (rnd.choice(["TRUE", "e' \\/ ~ s", "(e' <=> ~ e) \\/ s'"]),
+                    rnd.choice(["s' <=> e", "s' \\/ ~ e", "(s' <=> s) \\/ e'", "TRUE"]),
+                    rnd.choice(['s', 's <=> e', 's /\\ ~ e']))
+            if getattr(self, 'game', None) is None:
+                self.game = game('e', spec)
+                self.game_owner = 'e'
+            else:
+                self.game_owner = 's' if self.game_owner == 'e' else 'e'
+                g0 = self.game
+                g0.varlist['env'], g0.varlist['sys'] = [self.game_owner], ['s' if self.game_owner == 'e' else 'e']
+                g0.action['env'], g0.action['sys'] = spec[0], spec[1]
+                g0.win['[]<>'] = g0.bdds_from(spec[2])
+            g = self.game
+            fresh = game(self.game_owner, spec)
             with contextlib.redirect_stdout(io.StringIO()):
                 z, yij, xijk = gr1.solve_streett_game(g)
-                if z != g.false:
+                zf, _, _ = gr1.solve_streett_game(fresh)
+                self.tracked.append((f'winning region of the kept game automaton (env owns {self.game_owner}) vs a fresh one',
+                                     z, self.export(zf)))
+                if gr1.is_realizable(z, g):          # asserted precondition of the constructor
                     gr1.make_streett_transducer(z, yij, xijk, g)
                     self.tracked.append(('synthesized action', g.action['impl'], self.export(g.action['impl'])))
         elif op == 'O':
